@@ -58,9 +58,14 @@ LastCh(s)  == Ch(s, Len(s))
 From(s, i) == SubSeq(s, i, Len(s))
 MaxOf(S)   == CHOOSE x \in S : \A y \in S : y <= x
 MinOf(S)   == CHOOSE x \in S : \A y \in S : x <= y
-WS         == {" ", "\t"}
+WSX        == "`"    \* stands for `a white-space character outside ASCII` (U+00A0, U+0085, U+1680, U+2028, U+3000):
+                     \* Rust's str::trim / split_whitespace treat it as white space, the integer and bool parsers do not
+WS         == {" ", "\t", WSX}
 QUOTE      == "\""
-NA         == "~"    \* stands for `a character outside ASCII` (the harness writes e-acute, an emoji or `~` itself)
+NA         == "~"    \* stands for `a character that is neither an ASCII digit, letter, quote, blank, # nor brace`: the harness
+                     \* writes e-acute, an emoji, `~`, DEL, a C1 control, a private-use character, a combining mark, digits
+                     \* and numerics outside ASCII (U+0663, U+FF11, U+1D7D9, superscript 2, 1/2, roman VIII), the Kelvin
+                     \* sign and fullwidth K (not units), sharp s, dotted capital I, the fi ligature
 DigitCh    == {"0", "1", "2", "3", "4", "5", "6", "7", "8", "9"}
 DigitVal(c) == CASE c = "0" -> 0 [] c = "1" -> 1 [] c = "2" -> 2 [] c = "3" -> 3 [] c = "4" -> 4
                  [] c = "5" -> 5 [] c = "6" -> 6 [] c = "7" -> 7 [] c = "8" -> 8 [] c = "9" -> 9
@@ -112,7 +117,22 @@ Unsigned(t)  == IF SignOf(t) = "" THEN t ELSE From(t, 2)
 IsIntLit(t)  == IsDigits(Unsigned(t))
 UnitExp(c)   == CASE c \in {"K", "k"} -> 1 [] c \in {"M", "m"} -> 2 [] c \in {"G", "g"} -> 3 [] OTHER -> 0
 IsSizeLit(t) == Len(t) >= 2 /\ UnitExp(LastCh(t)) > 0 /\ IsIntLit(SubSeq(t, 1, Len(t) - 1))
-IsBoolLit(t) == t \in {"true", "false"}
+UPPER == "ABCDEFGHIJKLMNOPQRSTUVWXYZ"
+LOWER == "abcdefghijklmnopqrstuvwxyz"
+LowerCh(c) == LET i == IndexOf(UPPER, c) IN IF i = 0 THEN c ELSE Ch(LOWER, i)
+UpperCh(c) == LET i == IndexOf(LOWER, c) IN IF i = 0 THEN c ELSE Ch(UPPER, i)
+UpperSet == {"A", "B", "C", "D", "E", "F", "G", "H", "I", "J", "K", "L", "M", "N", "O", "P", "Q", "R", "S", "T", "U", "V", "W",
+             "X", "Y", "Z"}
+RECURSIVE LowerSlow(_)
+LowerSlow(t) == IF t = "" THEN "" ELSE LowerCh(Ch(t, 1)) \o LowerSlow(From(t, 2))
+Lower(t) == IF \E i \in 1..Len(t) : Ch(t, i) \in UpperSet THEN LowerSlow(t) ELSE t     \* str::to_ascii_lowercase
+RECURSIVE Upper(_)
+Upper(t) == IF t = "" THEN "" ELSE UpperCh(Ch(t, 1)) \o Upper(From(t, 2))
+\* The documentation writes keywords, booleans and enumeration values in lower case and units in upper case and says
+\* nothing about other cases.  Keywords (server, route, host, include) are only generated as documented.  A boolean,
+\* an enumeration value or a unit in another case means what its documented spelling means - or is rejected
+\* (Result.lenient); it never means anything else.
+IsBoolLit(t) == Len(t) \in {4, 5} /\ Lower(t) \in {"true", "false"}
 RECURSIVE MulK(_, _)
 MulK(d, n) == IF n = 0 THEN d ELSE MulK(Mul(d, 1024), n - 1)
 \* magnitude and sign of a numeric token (IsIntLit or IsSizeLit)
@@ -239,7 +259,7 @@ NullCfg == [address |-> "", port |-> "", threads |-> "", websocket |-> <<>>, tim
 RouteType(es) == IF HasKey(es, "file") THEN "file" ELSE IF HasKey(es, "directory") THEN "directory"
                  ELSE IF HasKey(es, "proxy") THEN "proxy" ELSE IF HasKey(es, "redirect") THEN "redirect"
                  ELSE IF HasKey(es, "websocket") THEN "websocket" ELSE "none"
-BalancerMode(es) == IF HasKey(es, "load_balancer_mode") THEN AsString(KeyTok(es, "load_balancer_mode"))
+BalancerMode(es) == IF HasKey(es, "load_balancer_mode") THEN Lower(AsString(KeyTok(es, "load_balancer_mode")))
                     ELSE "round-robin"
 RouteOf(pat, es) ==
   LET ty == RouteType(es) IN
@@ -266,9 +286,10 @@ Hosts(es) == IF es = <<>> THEN <<>>
 RECURSIVE AnyHostBad(_)
 AnyHostBad(es) == es # <<>> /\ ((Head(es).t = "host" /\ AnyRouteBad(Head(es).es)) \/ AnyHostBad(Tail(es)))
 
-LogLevels == {"error", "warn", "info", "debug"}   \* other capitalisations are not generated (the code folds case)
-BoolOf(tok) == AsString(tok) = "true"
-IsBoolTok(tok) == AsString(tok) \in {"true", "false"}
+LogLevels == {"error", "warn", "info", "debug"}
+Enum(tok)   == Lower(AsString(tok))                \* an enumeration value, in its documented spelling
+BoolOf(tok) == Lower(AsString(tok)) = "true"
+IsBoolTok(tok) == Lower(AsString(tok)) \in {"true", "false"}
 
 \* validation rules that a syntactically sound file violates (names are informative only)
 Violations(root, bl) ==
@@ -279,8 +300,8 @@ Violations(root, bl) ==
                                                   \/ NatStr(KeyTok(root, "threads")) = "0"))
   \cup Chk("timeout", HasKey(root, "timeout") /\ ~IsNatUpTo(KeyTok(root, "timeout"), MaxU64))
   \cup Chk("blacklist-file", HasKey(b, "file") /\ (AsString(KeyTok(b, "file")) # "@" \/ ~bl.exists \/ \E i \in 1..Len(bl.ips) : bl.ips[i] \notin GoodIps))
-  \cup Chk("blacklist-mode", HasKey(b, "mode") /\ AsString(KeyTok(b, "mode")) \notin {"block", "forbidden"})
-  \cup Chk("log-level", HasKey(l, "level") /\ AsString(KeyTok(l, "level")) \notin LogLevels)
+  \cup Chk("blacklist-mode", HasKey(b, "mode") /\ Enum(KeyTok(b, "mode")) \notin {"block", "forbidden"})
+  \cup Chk("log-level", HasKey(l, "level") /\ Enum(KeyTok(l, "level")) \notin LogLevels)
   \cup Chk("log-console", HasKey(l, "console") /\ ~IsBoolTok(KeyTok(l, "console")))
   \cup Chk("cache-size", HasKey(c, "size") /\ ~IsNatUpTo(KeyTok(c, "size"), MaxU64))
   \cup Chk("cache-time", HasKey(c, "time") /\ ~IsNatUpTo(KeyTok(c, "time"), MaxU64))
@@ -298,8 +319,8 @@ Described(root, bl) ==
    websocket      |-> Opt(KeyTok(root, "websocket")),
    timeout        |-> IF tmo = "0" THEN <<>> ELSE <<tmo>>,
    bl_list        |-> IF HasKey(b, "file") THEN bl.ips ELSE <<>>,
-   bl_mode        |-> StrD(b, "mode", "block"),
-   log_level      |-> StrD(l, "level", "warn"),
+   bl_mode        |-> Lower(StrD(b, "mode", "block")),
+   log_level      |-> Lower(StrD(l, "level", "warn")),
    log_console    |-> IF HasKey(l, "console") THEN BoolOf(KeyTok(l, "console")) ELSE TRUE,
    log_file       |-> Opt(KeyTok(l, "file")),
    cache_size     |-> NatD(c, "size", "0"),
@@ -318,13 +339,38 @@ OddQuotes(es) == \E i \in 1..Len(es) :
    \/ OddQuotes(e.es)
 Result(kind, cfg, loc, why) == [ok |-> kind = "ok", kind |-> kind, cfg |-> cfg, loc |-> loc, why |-> why, lenient |-> FALSE]
 
-Meaning(ast) ==
-  LET sf == SyntaxFault(ast) IN
+\* white space outside ASCII at the edge of a value or after a brace: the documentation only knows blanks.  It is white
+\* space to str::trim; a loader that trims ASCII only would reject the line.  Both are accepted: the file means what it
+\* means without those characters, or is rejected (lenient).  Inside a string or a number it is an ordinary character.
+RECURSIVE UTrim(_)
+UTrim(t) == IF t # "" /\ Ch(t, 1) = WSX THEN UTrim(From(t, 2))
+            ELSE IF t # "" /\ LastCh(t) = WSX THEN UTrim(SubSeq(t, 1, Len(t) - 1)) ELSE t
+RECURSIVE NormEs(_)
+NormEs(es) == [i \in 1..Len(es) |->
+                 [es[i] EXCEPT !.v = UTrim(@), !.ob = UTrim(@), !.cb = UTrim(@), !.es = NormEs(@)]]
+NormAst(ast) == [ast EXCEPT !.srv = [@ EXCEPT !.ob = UTrim(@), !.cb = UTrim(@), !.es = NormEs(@)],
+                         !.files = [f \in 1..Len(@) |-> NormEs(@[f])]]
+RECURSIVE OddCase(_)       \* a boolean, an enumeration value or a unit not spelt as documented
+OddCase(es) == \E i \in 1..Len(es) :
+   LET e == es[i] IN
+   \/ e.t = "key" /\ e.k \in {"mode", "level", "load_balancer_mode"} /\ IsStrLit(e.v) /\ Lower(StrBody(e.v)) # StrBody(e.v)
+   \/ e.t = "key" /\ ~IsStrLit(e.v) /\ IsBoolLit(e.v) /\ Lower(e.v) # e.v
+   \/ e.t = "key" /\ IsSizeLit(e.v) /\ LastCh(e.v) \in {"k", "m", "g"}
+   \/ OddCase(e.es)
+RECURSIVE EmptyPattern(_)  \* `route /a,,/b {`, `route /a, {`: an empty pattern, or rejected
+EmptyPattern(es) == \E i \in 1..Len(es) :
+   \/ es[i].t = "route" /\ \E j \in 1..Len(es[i].ps) : es[i].ps[j] = ""
+   \/ EmptyPattern(es[i].es)
+
+Meaning(ast0) ==
+  LET ast == NormAst(ast0)
+      sf  == SyntaxFault(ast) IN
   IF sf.some THEN Result(IF sf.rule = "any" THEN "reject" ELSE "syntax", NullCfg, sf, sf.cls)
   ELSE LET root == Expand(ast.srv.es, ast.files)
            v == Violations(root, ast.bl) IN
        IF v # {} THEN Result("validation", NullCfg, NoLoc, CHOOSE x \in v : TRUE)
-       ELSE [Result("ok", Described(root, ast.bl), NoLoc, "") EXCEPT !.lenient = OddQuotes(root)]
+       ELSE [Result("ok", Described(root, ast.bl), NoLoc, "") EXCEPT
+               !.lenient = OddQuotes(root) \/ OddCase(root) \/ EmptyPattern(root) \/ ast # ast0]
 
 (***************************************************************************)
 (* Part 4: single-fault mutants.  A fault = [cls, f, p, ast] : class, the  *)
@@ -359,6 +405,7 @@ NAPositions(v) == IF IndexOf(v, "@") # 0 THEN {0, Len(v)} ELSE 0..Len(v)
 Variants(e) ==
   (IF IsSection(e) THEN
      { <<"MissingCloseBrace", [e EXCEPT !.cb = ""]>>, <<"MissingOpenBrace", [e EXCEPT !.ob = ""]>>,
+       <<"UnicodeSpace", [e EXCEPT !.ob = "{" \o WSX]>>, <<"UnicodeSpace", [e EXCEPT !.cb = "}" \o WSX]>>,
        <<"NonAscii", [e EXCEPT !.ob = "{" \o NA]>>, <<"NonAscii", [e EXCEPT !.cb = "}" \o NA]>> }
      \cup (IF e.t = "host" THEN { <<"UnterminatedQuote", [e EXCEPT !.ps = <<SubSeq(@[1], 1, Len(@[1]) - 1)>>]>>,
                                   <<"UnterminatedQuote", [e EXCEPT !.ps = <<From(@[1], 2)>>]>>,
@@ -370,6 +417,9 @@ Variants(e) ==
                                   <<"TripleQuote", [e EXCEPT !.ps = <<Q(QUOTE)>>]>> }
            ELSE {})
      \cup (IF e.t = "route" THEN { <<"NonAscii", [e EXCEPT !.ps = [@ EXCEPT ![Len(@)] = @ \o NA]]>>,
+                                   <<"EmptyPattern", [e EXCEPT !.ps = @ \o <<"">>]>>,          \* `route /a, {`
+                                   <<"EmptyPattern", [e EXCEPT !.ps = <<"">> \o @]>>,          \* `route ,/a {`
+                                   <<"EmptyPattern", [e EXCEPT !.ps = <<@[1], "">> \o @]>>,    \* `route /a,,/a.. {`
                                    <<"QuoteInPattern", [e EXCEPT !.ps = <<QUOTE>>]>>,
                                    <<"QuoteInPattern", [e EXCEPT !.ps = [@ EXCEPT ![1] = QUOTE \o @]]>>,
                                    <<"QuoteInPattern", [e EXCEPT !.ps = [@ EXCEPT ![Len(@)] = Q(@)]]>> } ELSE {})
@@ -380,7 +430,17 @@ Variants(e) ==
        <<"UnterminatedQuote", [e EXCEPT !.v = QUOTE \o "x"]>>,   \* a string of length 1 that lost one
        <<"UnterminatedQuote", [e EXCEPT !.v = "x" \o QUOTE]>>,
        <<"EmptyString", [e EXCEPT !.v = Q("")]>>,                \* `""`: the empty string (or, for include, no file)
-       <<"TripleQuote", [e EXCEPT !.v = Q(QUOTE)]>> }            \* `"""`: lenient, see OddQuotes
+       <<"TripleQuote", [e EXCEPT !.v = Q(QUOTE)]>>,             \* `"""`: lenient, see OddQuotes
+       <<"UnicodeSpace", [e EXCEPT !.v = @ \o WSX]>>, <<"UnicodeSpace", [e EXCEPT !.v = WSX \o @]>>,
+       <<"UnicodeSpace", [e EXCEPT !.v = WSX]>> }
+     \cup (IF IndexOf(e.v, "@") = 0 /\ Len(e.v) >= 2
+           THEN { <<"UnicodeSpace", [e EXCEPT !.v = InsStr(@, i, WSX)]>> : i \in {1, Len(e.v) - 1} } ELSE {})
+     \cup (IF e.t = "key" /\ e.k \in EnumKeys /\ IsStrLit(e.v)
+           THEN { <<"OtherCase", [e EXCEPT !.v = Upper(@)]>>, <<"OtherCase", [e EXCEPT !.v = InsStr(From(@, 3), 0, QUOTE \o UpperCh(Ch(e.v, 2)))]>> }
+           ELSE {})
+     \cup (IF e.t = "key" /\ e.v \in {"true", "false"} THEN { <<"OtherCase", [e EXCEPT !.v = Upper(@)]>>,
+                                                               <<"OtherCase", [e EXCEPT !.v = UpperCh(Ch(@, 1)) \o From(@, 2)]>> } ELSE {})
+     \cup (IF e.t = "key" /\ IsSizeLit(e.v) THEN { <<"OtherCase", [e EXCEPT !.v = Lower(@)]>> } ELSE {})
      \cup { <<"NonAscii", [e EXCEPT !.v = InsStr(@, i, NA)]>> : i \in NAPositions(e.v) }
      \cup (IF e.t = "key" THEN { <<"NonAscii", [e EXCEPT !.k = InsStr(@, i, NA)]>> : i \in {0, Len(e.k)} } ELSE {})
      \cup (IF IsStrLit(e.v) THEN { <<"UnterminatedQuote", [e EXCEPT !.v = SubSeq(@, 1, Len(@) - 1)]>>,
@@ -391,8 +451,10 @@ Variants(e) ==
              \cup { <<"UnknownUnit", [e EXCEPT !.v = Digs(e.v) \o u]>> : u \in {"T", "KB", "B", " M", "KK"} }
              \cup { <<"TooBig", [e EXCEPT !.v = x]>> :
                        x \in {"9999999999G", "8589934592G", "9007199254740992K", "99999999999999999999",
-                               "17179869184G", "17179869185G"} }    \* the last two are 0 and 1G modulo 2^64
-             \cup { <<"OutOfRange", [e EXCEPT !.v = x]>> : x \in {"-1", "-1K"} }
+                               "17179869184G", "17179869185G",      \* 0 and 1G modulo 2^64
+                               "18014398509481984K", "36028797018963969K", "17592186044416M", "17592186044417M",
+                               "8796093022208M", "9223372036854775808", "-9223372036854775809"} }
+             \cup { <<"OutOfRange", [e EXCEPT !.v = x]>> : x \in {"-1", "-1K", "-9223372036854775808"} }
            ELSE {})
      \cup (IF e.t = "key" /\ e.k = "port" THEN { <<"OutOfRange", [e EXCEPT !.v = "65536"]>>,
                                                  <<"OutOfRange", [e EXCEPT !.v = "64K"]>> } ELSE {})
@@ -534,7 +596,7 @@ Classify(key, value) ==
   IF "LoneQuoteSlice" \in Dev /\ value = QUOTE THEN [st |-> "panic", node |-> N("String", key, "", <<>>)]
   ELSE IF IsStrLit(value) THEN [st |-> "ok", node |-> N("String", key, StrBody(value), <<>>)]   \* wildcard_match("\"*\"", value)
   ELSE IF RustI64(value) THEN [st |-> "ok", node |-> N("Number", key, value, <<>>)]
-  ELSE IF IsBoolLit(value) THEN [st |-> "ok", node |-> N("Boolean", key, value, <<>>)]
+  ELSE IF value \in {"true", "false"} THEN [st |-> "ok", node |-> N("Boolean", key, value, <<>>)]   \* bool::from_str
   ELSE LET z == ParseSize(value) IN [st |-> z.st, node |-> N("Number", key, z.num, <<>>)]
 
 FileIds == 1..Len(ast.files)
@@ -674,7 +736,7 @@ T2 ==  \* blacklist: load_list_file, IpAddr::from_str, mode
 T3 ==  \* logging
   /\ phase = "t3"
   /\ LET m == ServerMap
-         lvl == GetOptional(m, "server.log.level", IF "DefaultLogInfo" \in Dev THEN "info" ELSE "warn")
+         lvl == Lower(GetOptional(m, "server.log.level", IF "DefaultLogInfo" \in Dev THEN "info" ELSE "warn"))   \* to_ascii_lowercase
          con == GetOptional(m, "server.log.console", "true") IN
      IF lvl \notin LogLevels THEN Finish(ErrT("Invalid log level"))
      ELSE IF con \notin {"true", "false"} THEN Finish(ErrT("server.log.console must be a boolean"))
